@@ -34,7 +34,7 @@ ASSUMPTIONS = [
 ]
 CONFIG = {
     "quick": {"examples": 200, "shards": 16, "shrink_s": 30, "time_budget_s": 240},
-    "thorough": {"examples": 3000, "shards": 16, "shrink_s": 120, "time_budget_s": 1500},
+    "thorough": {"examples": 40000, "shards": 16, "shrink_s": 120, "time_budget_s": 1500},
 }
 EXHAUSTIVE = {
     "quick": "all histories over {1,2,3} of length <= 6 (jax scalars <= 4) x patience 0..3 x min_delta {0,0.5,1} x {train,val} x 4 scalar representations; EpochStop n in 0..6",
@@ -98,7 +98,7 @@ def draw_case(data, tier):
     if mode == "epochstop":
         return {"mode": "epochstop", "n": data.draw(st.integers(0, 12), label="n"), "repr": data.draw(st.sampled_from(REPRS), label="repr")}
     L = data.draw(st.integers(1, 30), label="len")
-    hist = [data.draw(st.floats(min_value=0.0, max_value=8.0, allow_nan=False, width=32), label="loss") for _ in range(L)]
+    hist = [data.draw(st.floats(min_value=0.0, max_value=8.0, allow_nan=False, allow_subnormal=False, width=32), label="loss") for _ in range(L)]
     if data.draw(st.integers(0, 4), label="diverges") == 0:  # a run that diverges: NaN from some epoch on
         a = data.draw(st.integers(0, L - 1), label="nan_from")
         for i in range(a, L):
@@ -240,7 +240,9 @@ def run_case(case):
                 raise HarnessError("loop")
         return result(None, n > 0, key, labels, evals=e + 1)
     if mode == "float_history":
-        hist = [float(np.float32(h)) for h in case["history"]]
+        # subnormal losses are flushed to zero by XLA on CPU: not a meaningful loss value, never generated (and mapped to 0 if
+        # an old replay file contains one)
+        hist = [0.0 if (h == h and 0.0 < abs(h) < 1.2e-38) else float(np.float32(h)) for h in case["history"]]
         if any(h != h for h in hist):
             pass
         labels = ["mode_float_history", "repr_" + case["repr"], "monitor_" + case["monitor"], f"patience{min(case['patience'], 4)}"]
